@@ -7,6 +7,8 @@ from . import verus as V
 
 VERIF = C.VERIF
 BUILD = C.BUILD
+# composed files of static units go to a per-property directory (several properties share units; their checks may run at the same time)
+UNITS_OUT = os.path.join(BUILD, "units" + ("_" + os.environ["VERIF_BUILD_SUB"] if os.environ.get("VERIF_BUILD_SUB") else ""))
 TRUST_PAT = re.compile(
     r"assume\s*\(|admit\s*\(|#\[verifier::external_body\]|assume_specification|#\[verifier::external\]|"
     r"#\[verifier::external_type_specification\]|#\[verifier::external_trait_specification\]|#\[verifier::external_fn_specification\]|"
@@ -116,7 +118,7 @@ def enclosing_fn_name(text_lines, line):
 def run_unit(name, template, tier="quick", canaries=("head",), rlimit=None, meta=None):
     u = UnitResult(name)
     u.meta = meta or {}
-    os.makedirs(os.path.join(BUILD, "units"), exist_ok=True)
+    os.makedirs(UNITS_OUT, exist_ok=True)
     t0 = time.time()
     try:
         comp = C.compose(template, name)
@@ -124,7 +126,7 @@ def run_unit(name, template, tier="quick", canaries=("head",), rlimit=None, meta
         u.status = "undecided"
         u.reason = "extraction: " + str(e)
         return u
-    path = os.path.join(BUILD, "units", name + ".rs")
+    path = os.path.join(UNITS_OUT, name + ".rs")
     open(path, "w").write(comp.text)
     u.path = path
     u.trusted = trusted_scan(comp.text)
@@ -203,7 +205,7 @@ def run_unit(name, template, tier="quick", canaries=("head",), rlimit=None, meta
                 marks = re.findall(r"/\*CANARY ([\w.]+)\*/", cc.text)
                 if not marks:
                     continue
-                cpath = os.path.join(BUILD, "units", f"{name}__canary_{kind}{'' if rnd is None else rnd}.rs")
+                cpath = os.path.join(UNITS_OUT, f"{name}__canary_{kind}{'' if rnd is None else rnd}.rs")
                 open(cpath, "w").write(cc.text)
                 cr = V.run(cpath, rlimit=rlimit, multiple_errors=12)
                 if not cr.ran or not cr.functions:
